@@ -323,9 +323,10 @@ def rand_point_cloud(rng, size, specs=None, dedup_maps=True):
     return Geom(False, n, [], atts)
 
 
-def rand_mesh(rng, size, specs=None):
-    """mesh whose point ids are distinct corner tuples (position index, per-attribute value index)"""
-    fam, nv, vfaces = rand_topology(rng, size)
+def rand_mesh(rng, size, specs=None, topo=None, no_dedup=None, isolated=None):
+    """mesh whose point ids are distinct corner tuples (position index, per-attribute value index);
+    topo = (family, num_vertices, faces) overrides the random topology"""
+    fam, nv, vfaces = topo if topo is not None else rand_topology(rng, size)
     specs = specs or rand_att_specs(rng)
     ncorn = 3 * len(vfaces)
     # per attribute: corner -> value index
@@ -351,7 +352,7 @@ def rand_mesh(rng, size, specs=None):
                 lay, nval = list(range(ncorn)), max(1, ncorn)
         layouts.append((lay, max(nval, 1)))
     # points = distinct tuples (optionally not deduplicated)
-    no_dedup = rng.random() < 0.1
+    no_dedup = rng.random() < 0.1 if no_dedup is None else no_dedup
     point_of = {}
     tuples = []
     faces = []
@@ -372,7 +373,7 @@ def rand_mesh(rng, size, specs=None):
             f.append(pid)
         faces.append(tuple(f))
     # isolated points
-    for _ in range(rng.randint(1, 3) if rng.random() < 0.15 else 0):
+    for _ in range(rng.randint(1, 3) if (rng.random() < 0.15 if isolated is None else isolated) else 0):
         tuples.append(tuple(rng.randrange(l[1]) for l in layouts))
     # vertices never referenced stay as unused values
     npnt = len(tuples)
